@@ -733,9 +733,44 @@ type Facts struct {
 	ParseStatusStrings  [][2]any            `json:"parseStatusStrings"`
 	RegisterCalls       map[string]int      `json:"registerCalls"`
 	Guards              map[string][]string `json:"guardsByFunc"`
+	Calls               map[string][]string `json:"callsByFunc"`
 }
 
-var facts = Facts{Consts: map[string]int64{}, RegisterCalls: map[string]int{}, Guards: map[string][]string{}}
+var facts = Facts{Consts: map[string]int64{}, RegisterCalls: map[string]int{}, Guards: map[string][]string{}, Calls: map[string][]string{}}
+
+// collectCalls records, per function and per function literal (named root$k as the sites are), the
+// names of the functions called, in source order.
+func collectCalls(root string, body ast.Node) {
+	counter := 0
+	var walk func(name string, n ast.Node)
+	walk = func(name string, n ast.Node) {
+		ast.Inspect(n, func(x ast.Node) bool {
+			switch x := x.(type) {
+			case *ast.FuncLit:
+				counter++
+				walk(root+"$"+strconv.Itoa(counter), x.Body)
+				return false
+			case *ast.CallExpr:
+				callee := ""
+				switch fn := x.Fun.(type) {
+				case *ast.Ident:
+					callee = fn.Name
+				case *ast.SelectorExpr:
+					callee = fn.Sel.Name
+				case *ast.IndexExpr:
+					if id, ok := fn.X.(*ast.Ident); ok {
+						callee = id.Name
+					}
+				}
+				if callee != "" {
+					facts.Calls[name] = append(facts.Calls[name], callee)
+				}
+			}
+			return true
+		})
+	}
+	walk(root, body)
+}
 
 type fnode struct {
 	name    string
@@ -804,6 +839,7 @@ func collectFacts(p *packages.Package) {
 				if d.Body == nil {
 					continue
 				}
+				collectCalls(name, d.Body)
 				var conds []string
 				ast.Inspect(d.Body, func(n ast.Node) bool {
 					switch n := n.(type) {
